@@ -824,3 +824,70 @@ func init() {
 		fmt.Println("REPLAY: not-reproduced")
 	}
 }
+
+// ParseLevelRange: "" (everything), "MIN" or "MIN~MAX" over registered level names, case-insensitively;
+// anything else is an error.
+func init() {
+	replayers["ParseLevelRange"] = func(in map[string]any) {
+		oracle := func(s string) string {
+			var got LevelRange
+			var err error
+			var pan any
+			func() {
+				defer func() { pan = recover() }()
+				got, err = ParseLevelRange(s)
+			}()
+			if pan != nil {
+				return fmt.Sprintf("ParseLevelRange(%q) panics: %v", s, pan)
+			}
+			t := strings.TrimSpace(s)
+			if t == "" {
+				if err != nil || got.MinLevel != NoneLevel || got.MaxLevel != MaxLevel {
+					return fmt.Sprintf("ParseLevelRange(%q) = %v, %v; want [NONE, MAX)", s, got, err)
+				}
+				return ""
+			}
+			parts := strings.Split(t, "~")
+			lookup := func(n string) (Level, bool) { l, ok := levelRegistry[strings.ToUpper(n)]; return l, ok }
+			if len(parts) > 2 {
+				if err == nil {
+					return fmt.Sprintf("ParseLevelRange(%q) = [%s, %s) without error; the string is neither MIN nor MIN~MAX (the extra bound is silently ignored)", s, got.MinLevel.Name(), got.MaxLevel.Name())
+				}
+				return ""
+			}
+			lo, okLo := lookup(parts[0])
+			hi, okHi := MaxLevel, true
+			if len(parts) == 2 {
+				hi, okHi = lookup(parts[1])
+			}
+			if !okLo || !okHi {
+				if err == nil {
+					return fmt.Sprintf("ParseLevelRange(%q) accepts an unregistered level name", s)
+				}
+				return ""
+			}
+			if err != nil || got.MinLevel != lo || got.MaxLevel != hi {
+				return fmt.Sprintf("ParseLevelRange(%q) = %v, %v; want [%s, %s)", s, got, err, lo.Name(), hi.Name())
+			}
+			return ""
+		}
+		if msg := oracle(rBytes(in["s"])); msg != "" {
+			fmt.Println("REPLAY: confirmed", msg)
+			return
+		}
+		names := []string{"", "info", "INFO", "warn", "Error", "max", "none", "loud"}
+		for _, a := range names {
+			for _, b := range names {
+				for _, c := range names {
+					for _, s := range []string{a, a + "~" + b, a + "~" + b + "~" + c, " " + a + "~" + b + " "} {
+						if msg := oracle(s); msg != "" {
+							fmt.Println("REPLAY: confirmed (bounded search over 8 names in up to three positions)", msg)
+							return
+						}
+					}
+				}
+			}
+		}
+		fmt.Println("REPLAY: not-reproduced")
+	}
+}
